@@ -59,9 +59,16 @@ LEAN_MODULE_EXTRA = list(globals().get('LEAN_MODULE_EXTRA', [])) + ['CC.Properti
 THEOREMS += ['CC.C10_rows_potential', 'CC.C10_rows_voltage', 'CC.C10_rows_current', 'CC.C10_output_rows',
     'CC.C10_rows_report', 'CC.C10_rows_transfer']
 LEAN_MODULE_EXTRA += ['CC.Properties.C10Rows']
+# TIE10B: translator tie of the CIRCUIT-level wrapper Circuit/state_space_model.py::state_space_model
+# (harness/extract_statewrap.py -> lean/CC/Gen/StateWrap.lean; idioms lean/CC/Model/StateWrapBase.lean)
+THEOREMS += ['CC.C10_gen_wrapper_values', 'CC.C10_gen_wrapper_values_ok', 'CC.C10_gen_wrapper_values_reactive',
+    'CC.C10_gen_wrapper_model', 'CC.C10_gen_wrapper_outputs']
+LEAN_MODULE_EXTRA += ['CC.Properties.C10Wrap']
 
 OPEN_STATEMENTS = []    # CC.C10_output_rows_statement is now the theorem CC.C10_output_rows (lean/CC/Properties/C10Rows.lean)
+OPEN_STATEMENTS += ['circuit-level wrapper (CC.Properties.C10Wrap): the generated state_space_model is proved equal to the hand model (dictionaries with the float(...) cast as the node Py.toFloat, nodalStateSpaceModel of transformCircuit circuit 0, rows stacked potentials | voltages | currents). Not tied: float() is the IDENTITY on exact numbers, so the numpy dtype of Lambda (an int value without the cast makes an integer array — seeded change C11-5B) is visible to the translator only as the missing cast node (Py.noCast; C10_gen_wrapper_values then fails), not as a numeric statement; the column count numpy keeps for an EMPTY request list (np.ndarray(shape=(0, n))) is recorded (Gen.StateWrap.wrapper_widths) but not proved; the StateSpaceModel(...) container call is tied only through its shape checks (C10_gen_container); the two dictionary lines of TransientSolution.__post_init__ are tied as literal text (Gen/Solution.lean methodTable), not through these theorems']
 ASSUMPTIONS = [
+    'C10_gen_wrapper_model / C10_gen_wrapper_outputs: np.linalg.inv is an arbitrary function inv that preserves nrows / ncols (hinv), .real is re; transform_circuit is the hand model transformCircuit (tied to circuit.py / transformers.py by the Circuit-group translators) with w_resolution the callee default (parameter wres)',
     'numpy.linalg.inv is a parameter of the model: theorems hold for every pair of matrices with Ã·Ainv = 1 and (DQᵀ Ainv DQ)·S = 1; numpy\'s own inverses are checked against these equations on every case (exact residual ≤ 1e-9)',
     'binary64 arithmetic of numpy agrees with field arithmetic within 1e-9 relative on the dyadic, well-conditioned instances generated (cond < 1e6; others are counted as skipped)',
     'the hand-written model CC/Model/StateSpace.lean is tied to the code by the ss_model correspondence only (no translator part)',
